@@ -104,3 +104,33 @@ func init() {
 	mut("C03", "(benign) contract signature closure inlined for new contracts", false, "",
 		Edit{v, "\t\treturn validateSignatures(fc, fc.RenterPublicKey, fc.HostPublicKey)\n\t}\n\n\tvalidateRevision", "\t\tcontractHash := ms.base.ContractSigHash(fc)\n\t\tif !fc.RenterPublicKey.VerifyHash(contractHash, fc.RenterSignature) {\n\t\t\treturn errors.New(\"has invalid renter signature\")\n\t\t} else if !fc.HostPublicKey.VerifyHash(contractHash, fc.HostSignature) {\n\t\t\treturn errors.New(\"has invalid host signature\")\n\t\t}\n\t\treturn nil\n\t}\n\n\tvalidateRevision"})
 }
+
+func init() {
+	// ---- C01 ----
+	v := "consensus/validation.go"
+	a := "consensus/application.go"
+	mut("C01", "v2 balance: miner fee not added to the output sum", true, "balance-equation|v2-siacoins",
+		Edit{v, "\toutputSum = outputSum.Add(txn.MinerFee)\n\tif inputSum != outputSum {", "\tif inputSum != outputSum {"})
+	mut("C01", "v2 balance: MissedHostValue used for the new contract's host output", true, "balance-equation|v2-siacoins",
+		Edit{v, "outputSum = outputSum.Add(fc.RenterOutput.Value).Add(fc.HostOutput.Value).Add(ms.base.V2FileContractTax(fc))", "outputSum = outputSum.Add(fc.RenterOutput.Value).Add(fc.MissedHostValue).Add(ms.base.V2FileContractTax(fc))"})
+	mut("C01", "expiration pays the valid host output", true, "value-source|v2-resolution-host",
+		Edit{a, "renter, host = fc.RenterOutput, fc.MissedHostOutput()", "renter, host = fc.RenterOutput, fc.HostOutput"})
+	mut("C01", "claim computed from the base state's pool", true, "value-source|v2-claim",
+		Edit{a, "claimPortion := ms.siafundTaxRevenue.Sub(sfi.Parent.ClaimStart).Div64(ms.base.SiafundCount()).Mul64(sfi.Parent.SiafundOutput.Value)", "claimPortion := ms.base.SiafundTaxRevenue.Sub(sfi.Parent.ClaimStart).Div64(ms.base.SiafundCount()).Mul64(sfi.Parent.SiafundOutput.Value)"})
+	mut("C01", "v1 revise recorder forgets the payout", true, "tax-pairing|revision-keeps-payout",
+		Edit{a, "\trev.Payout = fce.FileContract.Payout\n\tfced := ms.recordFileContractElement(fce.ID)", "\tfced := ms.recordFileContractElement(fce.ID)"})
+	mut("C01", "miner payouts: v2 fees not expected", true, "balance-equation|miner-payout",
+		Edit{v, "\t\t\texpectedSum, overflow = expectedSum.AddWithOverflow(txn.MinerFee)\n\t\t\tif overflow {\n\t\t\t\treturn errors.New(\"v2 transaction fees overflow\")\n\t\t\t}\n", "\t\t\t_ = txn\n"})
+	mut("C01", "new siafund elements start claiming at the base pool", true, "tax-pairing|claim-start",
+		Edit{a, "\t\tClaimStart:    ms.siafundTaxRevenue,\n", "\t\tClaimStart:    ms.base.SiafundTaxRevenue,\n"})
+	mut("C01", "v2 contract creation taxed with the v1 formula on a converted contract", true, "tax-pairing|writer",
+		Edit{a, "\tms.siafundTaxRevenue = ms.siafundTaxRevenue.Add(ms.base.V2FileContractTax(fc))\n", "\tms.siafundTaxRevenue = ms.siafundTaxRevenue.Add(fc.RenterOutput.Value.Add(fc.HostOutput.Value).Div64(25))\n"})
+	mut("C01", "storage proof pays the missed outputs", true, "value-source|v1-storage-proof-valid-outputs",
+		Edit{a, "\t\tfor i, sco := range fce.FileContract.ValidProofOutputs {\n\t\t\tms.createImmatureSiacoinElement(sp.ParentID.ValidOutputID(i), sco)", "\t\tfor i, sco := range fce.FileContract.MissedProofOutputs {\n\t\t\tms.createImmatureSiacoinElement(sp.ParentID.ValidOutputID(i), sco)"})
+	mut("C01", "v2 storage-proof payout created mature", true, "value-source|v2-resolution-renter",
+		Edit{a, "\t\tms.createImmatureSiacoinElement(fcr.Parent.ID.V2RenterOutputID(), renter)", "\t\tms.createSiacoinElement(fcr.Parent.ID.V2RenterOutputID(), renter)"})
+	mut("C01", "(benign) balance compared with Equals", false, "",
+		Edit{v, "\tif inputSum != outputSum {\n\t\treturn fmt.Errorf(\"siacoin inputs (%v) do not equal outputs (%v)\", inputSum, outputSum)\n\t}\n\n\treturn nil\n}\n\nfunc validateEphemeralSiafundElement", "\tif !inputSum.Equals(outputSum) {\n\t\treturn fmt.Errorf(\"siacoin inputs (%v) do not equal outputs (%v)\", inputSum, outputSum)\n\t}\n\n\treturn nil\n}\n\nfunc validateEphemeralSiafundElement"})
+	mut("C01", "(benign) v2 output loop hoisted into a helper closure", false, "",
+		Edit{v, "\tfor i, out := range txn.SiacoinOutputs {\n\t\tif out.Value.IsZero() {\n\t\t\treturn fmt.Errorf(\"siacoin output %v has zero value\", i)\n\t\t}\n\t\toutputSum = outputSum.Add(out.Value)\n\t}", "\tfor i, out := range txn.SiacoinOutputs {\n\t\tif out.Value.IsZero() {\n\t\t\treturn fmt.Errorf(\"siacoin output %v has zero value\", i)\n\t\t}\n\t}\n\tsumOutputs := func() (sum types.Currency) {\n\t\tfor _, out := range txn.SiacoinOutputs {\n\t\t\tsum = sum.Add(out.Value)\n\t\t}\n\t\treturn sum\n\t}\n\toutputSum = outputSum.Add(sumOutputs())"})
+}
